@@ -119,7 +119,16 @@ func main() {
 	emit("verifsim/cachefix/zz_verifsim.go", []byte(cacheAccessor("cache", clockStruct, clockType)))
 
 	// 6. info file for the harness.
-	info := fmt.Sprintf("package simsync\n\n// TwinPatched reports whether the differential twin carries the KF1 repair.\nconst TwinPatched = %v\n", rep.TwinPatched)
+	spawns := false
+	for _, pkg := range []string{"cache", "shell", "distinct", "heapq", "mapset"} {
+		for _, f := range goFiles(pkg) {
+			if spawnsGoroutines(f, read(f)) {
+				spawns = true
+				rep.Warnings = append(rep.Warnings, f+": starts goroutines of its own; the simulator does not schedule those (calls from them get real sync behaviour)")
+			}
+		}
+	}
+	info := fmt.Sprintf("package simsync\n\n// TwinPatched reports whether the differential twin carries the KF1 repair.\nconst TwinPatched = %v\n\n// SpawnsGoroutines reports whether the simulated packages contain go statements\n// (or time.AfterFunc): then every seam call checks which goroutine is calling.\nconst SpawnsGoroutines = %v\n", rep.TwinPatched, spawns)
 	emit("verifsim/simsync/zz_info.go", []byte(info))
 
 	ob, _ := json.MarshalIndent(map[string]any{"Replace": overlay}, "", " ")
@@ -392,6 +401,25 @@ func patchHeapq(name string, src []byte) ([]byte, bool) {
 		return src, false
 	}
 	return apply(src, edits), true
+}
+
+// spawnsGoroutines reports whether the file contains a go statement or a call
+// whose selector is AfterFunc.
+func spawnsGoroutines(name string, src []byte) bool {
+	_, f := parse(name, src)
+	found := false
+	ast.Inspect(f, func(n ast.Node) bool {
+		switch x := n.(type) {
+		case *ast.GoStmt:
+			found = true
+		case *ast.SelectorExpr:
+			if x.Sel.Name == "AfterFunc" {
+				found = true
+			}
+		}
+		return !found
+	})
+	return found
 }
 
 func squash(s string) string {
